@@ -845,6 +845,50 @@ def r2(ctx, model: Model):
             ctx.ob("C16.R2", f"{q}: `{norm(node)}` grants through CapsMultiDict.add", False, ctx.w(fi, node),
                    "item assignment replaces every earlier grant of that name: their URLs no longer resolve")
     ctx.floor("C16.R2", "grant sites (caps.add)", n, 1)
+    # callers of the grant API must not swallow a grant depending on what the region already holds either
+    from .c18 import inline_self_calls
+    from .common import callers_of
+    seen_fn = set()
+    for api in ("update_caps", "register_cap"):
+        for g0, _c in callers_of(repo, api):
+            g0 = top_fn(g0)
+            if g0.full in seen_fn or model.in_region_class(g0):
+                continue
+            seen_fn.add(g0.full)
+            g = inline_self_calls(repo, g0)
+            for c in [x for x in calls(g.node) if call_attr(x) in ("update_caps", "register_cap") and isinstance(x.func, ast.Attribute)]:
+                recv = norm(c.func.value)
+                granted = []
+                if call_attr(c) == "update_caps" and c.args and isinstance(c.args[0], ast.Dict):
+                    granted = [(k, v) for k, v in zip(c.args[0].keys, c.args[0].values) if k is not None]
+                elif call_attr(c) == "register_cap" and len(c.args) >= 2:
+                    granted = [(c.args[0], c.args[1])]
+                bad = []
+                for e, pol in facts(c, g.node):
+                    reads = [x for x in ast.walk(e) if isinstance(x, ast.Attribute) and x.attr in ("caps", "cap_urls", "_caps_url_lookup")
+                             and norm(x.value) == recv]
+                    if not reads:
+                        continue
+                    ok = False
+                    if isinstance(e, ast.Compare) and len(e.ops) == 1 and isinstance(e.ops[0], (ast.Eq, ast.NotEq)):
+                        differs = pol if isinstance(e.ops[0], ast.NotEq) else not pol
+                        for a, b in ((e.left, e.comparators[0]), (e.comparators[0], e.left)):
+                            front_key = None
+                            if isinstance(a, ast.Subscript) and isinstance(a.value, ast.Attribute) and a.value.attr == "cap_urls":
+                                front_key = a.slice
+                            elif isinstance(a, ast.Call) and isinstance(a.func, ast.Attribute) and a.func.attr in ("get", "getone") and \
+                                    isinstance(a.func.value, ast.Attribute) and a.func.value.attr == "cap_urls" and a.args:
+                                front_key = a.args[0]
+                            if front_key is not None and differs and \
+                                    any(norm(k) == norm(front_key) and norm(v) == norm(b) for k, v in granted):
+                                ok = True
+                    if not ok:
+                        bad.append(f"{'' if pol else 'not '}{norm(e)}")
+                if any(isinstance(x, ast.Attribute) and x.attr in ("caps", "cap_urls") for e, _ in facts(c, g.node) for x in ast.walk(e)) or bad:
+                    ctx.ob("C16.R2", f"{g0.qual}: `{norm(c)}` is skipped only when that URL is already the newest for its name",
+                           not bad, ctx.w(g, c),
+                           f"skipped under {bad}: a URL that was granted before but is no longer the newest is not moved "
+                           f"to the front again, lookup by name keeps answering the stale one")
 
 
 def _front_equality(model, fi, e, pol, grant_call) -> bool:
@@ -1689,8 +1733,27 @@ class _SubstNames(ast.NodeTransformer):
 
 
 def _helper_of(repo, fi, call):
-    """(helper FuncInfo, {param: argument expr}) for a call of a same-module top-level function."""
-    if not (isinstance(call, ast.Call) and isinstance(call.func, ast.Name)):
+    """(helper FuncInfo, {param: argument expr}) for a call of a same-module top-level function or of a
+    self./cls. method of the same class."""
+    if not isinstance(call, ast.Call):
+        return None
+    if isinstance(call.func, ast.Attribute) and isinstance(call.func.value, ast.Name) and call.func.value.id in ("self", "cls") \
+            and fi.cls is not None:
+        h = repo.lookup_method(fi.cls, call.func.attr)
+        if h is None or h.node is fi.node:
+            return None
+        static = any((ap(d) or "").split(".")[-1] == "staticmethod" for d in h.node.decorator_list)
+        params = [a.arg for a in h.node.args.args]
+        if not static:
+            params = params[1:]
+        if len(call.args) > len(params) or h.node.args.vararg or h.node.args.kwarg:
+            return None
+        mapping = dict(zip(params, call.args))
+        for k in call.keywords:
+            if k.arg in params:
+                mapping[k.arg] = k.value
+        return h, mapping
+    if not isinstance(call.func, ast.Name):
         return None
     cands = [g for g in repo.funcs.get(call.func.id, []) if g.module is fi.module and g.cls is None and g.parent_fn is None]
     if len(cands) != 1:
@@ -1706,8 +1769,20 @@ def _helper_of(repo, fi, call):
     return h, mapping
 
 
+class _Beta(ast.NodeTransformer):
+    """(lambda p: body)(arg) -> body[p := arg]"""
+
+    def visit_Call(self, node):
+        self.generic_visit(node)
+        if isinstance(node.func, ast.Lambda) and not node.keywords and \
+                len(node.args) == len(node.func.args.args) and not node.func.args.vararg:
+            mp = {p.arg: a for p, a in zip(node.func.args.args, node.args)}
+            return _SubstNames(mp).visit(_clone_ast(node.func.body))
+        return node
+
+
 def _through(mapping, e):
-    return _FoldGetattr().visit(_SubstNames(mapping).visit(_clone_ast(e)))
+    return _FoldGetattr().visit(_Beta().visit(_SubstNames(mapping).visit(_clone_ast(e))))
 
 
 def _selections(fn_node):
@@ -1944,6 +2019,22 @@ def r9(ctx, model: Optional[Model] = None):
                     if len(vals) == 1:
                         it = vals[0]
                 n += 1
+                # the search itself is not skipped depending on remembered state (a negative cache keyed by less
+                # than the URL and never invalidated by new grants hides caps granted later)
+                outer_node = next((a for a in ancestors(c) if isinstance(a, (ast.For, ast.AsyncFor)) and
+                                   isinstance(a.target, ast.Name) and a.target.id == v), None) or enclosing_stmt(c)
+                remembered = []
+                for e, pol in facts(outer_node, g.node):
+                    for x in ast.walk(e):
+                        p_ = ap(x) if isinstance(x, ast.Attribute) else None
+                        if p_ and p_.startswith("self.") and p_.split(".")[1].split("(")[0].split("[")[0] not in \
+                                ("sessions", "regions", "global_caps"):
+                            remembered.append(f"{'' if pol else 'not '}{norm(e)}")
+                            break
+                ctx.ob("C16.R9", f"{g.qual}: the search through {coll} is not skipped depending on other remembered state",
+                       not remembered, ctx.w(g, c),
+                       f"skipped under {sorted(set(remembered))}: resolution must be a function of the URL and the caps "
+                       f"currently granted; a remembered miss keeps hiding caps granted (or URLs consumed) afterwards")
                 about = [f"{'' if pol else 'not '}{norm(e)}" for e, pol in conds
                          if any(isinstance(x, ast.Name) and x.id == v for x in ast.walk(e))]
                 ctx.ob("C16.R9", f"{g.qual}: `{norm(c)}` is asked of every member of {coll}", ap(it) == coll and not about,
@@ -2058,6 +2149,39 @@ def r10(ctx, model: Optional[Model] = None):
                "is not offered to the asset repo")
 
 
+def r11(ctx, model: Optional[Model] = None):
+    repo = ctx.repo
+    ctx.rule("C16.R11", "addon hooks of the library that register caps return nothing: AddonManager stops delivering a "
+                        "hook at the first truthy return, so the remaining addons would never register their caps")
+    disp = repo.fn("AddonManager._call_all_addon_hooks")
+    first_truthy = any(isinstance(n, ast.If) and isinstance(n.test, ast.Name) and
+                       any(isinstance(x, ast.Return) and ap(x.value) == n.test.id for x in n.body)
+                       for n in walk(disp.node) if any(isinstance(a, ast.For) for a in ancestors(n)))
+    if not first_truthy:
+        ctx.note("C16.R11: AddonManager._call_all_addon_hooks no longer stops at the first truthy hook result; not required")
+        return
+    n = 0
+    for fi in repo.all_funcs:
+        if fi.parent_fn is not None or fi.cls is None or not fi.name.startswith("handle_"):
+            continue
+        regs = [c for c in calls(fi.node) if call_attr(c) in ("register_proxy_cap", "register_cap", "register_wrapper_cap")]
+        if not regs:
+            # one level of self. helpers
+            regs = [c for c in calls(fi.node) if isinstance(c.func, ast.Attribute) and isinstance(c.func.value, ast.Name) and
+                    c.func.value.id == "self" and (repo.lookup_method(fi.cls, c.func.attr) is not None) and
+                    any(call_attr(x) in ("register_proxy_cap", "register_cap", "register_wrapper_cap")
+                        for x in calls(repo.lookup_method(fi.cls, c.func.attr).node))]
+        if not regs:
+            continue
+        n += 1
+        vals = [r.value for r in returns_of(fi.node) if r.value is not None and
+                not (isinstance(r.value, ast.Constant) and not r.value.value)]
+        ctx.ob("C16.R11", f"{fi.qual} returns nothing truthy", not vals, fi.where,
+               f"returns `{norm(vals[0])}`: once one addon answers, no later addon sees this hook for the region and its "
+               f"proxy-only cap is neither stripped from the Seed request nor presented to the viewer" if vals else "")
+    ctx.floor("C16.R11", "cap-registering addon hooks", n, 1)
+
+
 def run(ctx):
     model = Model(ctx)
     r1(ctx, model)
@@ -2070,6 +2194,7 @@ def run(ctx):
     r8(ctx, model)
     r9(ctx, model)
     r10(ctx, model)
+    r11(ctx, model)
     ctx.note("C16: resolve_cap returns the first startswith() match in index order; resolution with prefix-related "
              "URLs across caps/regions/sessions is not decided")
     ctx.assume("multidict.MultiDict: add() appends, [] / get() return the first value, popall() removes all values "
